@@ -354,3 +354,34 @@ func verifLemma_C09_uint64map_roundtrip(p, q, r, s byte) {
 	verifrt.Assert(!found, "absent-id-not-found")
 	verifrt.Assert(len(m.FillTagged(2, nil)) == 0, "absent-id-in-an-empty-bucket")
 }
+
+// vPsum is the sum of the first j reserved lengths (uint64 arithmetic, as the builder computes it).
+func vPsum(rs []uint64, j int) uint64 {
+	if j <= 0 {
+		return 0
+	}
+	return vPsum(rs, j-1) + rs[j-1]
+}
+
+// vFits: v can be stored in l little-endian bytes (1 <= l <= 8).
+func vFits(v uint64, l int) bool {
+	switch l {
+	case 1:
+		return v < 1<<8
+	case 2:
+		return v < 1<<16
+	case 3:
+		return v < 1<<24
+	case 4:
+		return v < 1<<32
+	case 5:
+		return v < 1<<40
+	case 6:
+		return v < 1<<48
+	case 7:
+		return v < 1<<56
+	case 8:
+		return true
+	}
+	return false
+}
